@@ -3,6 +3,7 @@ package tcp
 import (
 	"context"
 	"crypto/tls"
+	"errors"
 	"net"
 	"sync"
 	"time"
@@ -150,6 +151,15 @@ func (c *conn) Write(b []byte) (int, error) {
 
 func (c *conn) Close() error {
 	return c.c.Close()
+}
+
+// CloseWrite shuts down the write side of the connection if the
+// underlying connection supports it.
+func (c *conn) CloseWrite() error {
+	if cw, ok := c.c.(closeWriter); ok {
+		return cw.CloseWrite()
+	}
+	return errors.New("tcp: connection does not support CloseWrite")
 }
 
 func (c *conn) LocalAddr() net.Addr {
